@@ -221,6 +221,9 @@ class FloorTracer:
             kind = KIND_BY_ACTION.get(name, name)
         asset = self.m.by_asset.get(e.asset_id, e.asset_id if e.asset_id < 0 else 0)
         arg = (a.idx + 1) if isinstance(a, ScriptAct) else 0
+        if kind in ('mstart', 'mfinish'):
+            req = getattr(a, 'keywords', {}).get('request')
+            arg = getattr(getattr(req, 'target', None), '_vid', 0) * 10 + (1 if getattr(req, 'tag', '') == 'y' else 0)
         return [tk(e.time), int(round(e.event_type * 10)), asset, kind, bool(e.cancelled), arg]
 
     def project(self):
@@ -250,11 +253,17 @@ class FloorTracer:
         for r, lst in sd.get('resource_update', {}).items():
             lastres[r] = [num(lst[-1][1]), num(lst[-1][2])]
         st['lastres'] = lastres
-        if self.m.maint is not None:
-            mt = self.m.maint
+        mt = self.m.maint
+        if mt is not None:
+            sdm = env.simulation_data
             st['mt'] = {'queue': [[getattr(o.target, '_vid', 0), str(o.tag)] for o in mt._request_queue],
                         'active': [[getattr(o.target, '_vid', 0), str(o.tag)] for o in mt._active_requests],
-                        'util': num(mt._utilization), 'value': num(mt.value)}
+                        'util': num(mt._utilization), 'value': num(mt.value), 'nvh': len(mt.value_history),
+                        'enter': len(sdm.get('enter_queue', {}).get(mt.name, [])),
+                        'start': len(sdm.get('start_work_order', {}).get(mt.name, [])),
+                        'finish': len(sdm.get('finish_work_order', {}).get(mt.name, []))}
+        else:
+            st['mt'] = {'queue': [], 'active': [], 'util': 0, 'value': 0, 'nvh': 0, 'enter': 0, 'start': 0, 'finish': 0}
         st['net'] = num(self.m.system.get_net_value_of_assets())
         st['mtvalue'] = num(self.m.maint.value) if self.m.maint is not None else 0
         return st
@@ -394,7 +403,7 @@ class FloorTracer:
         elif call == 'adjust':
             o.adjust_part_count(c['arg'])
         elif call == 'workorder':
-            m.maint.create_work_order(o, c.get('tag', 'x'))
+            m.maint.create_work_order(o, c.get('res') or 'x')
         elif call == 'rewire':
             o.set_upstream([m.dev[u] for u in c['ups']])
         elif call == 'noise':
